@@ -1,7 +1,7 @@
 (* C06 — quasiseparable inverses and triangular solves are exact (statements only). Any field. *)
 From mathcomp Require Import all_ssreflect all_algebra.
 From TinyGP Require Import Base.Ops Base.LMat Model.QSMCore Model.QSMSolve
-  Theory.MxRefine Theory.QSMDen Theory.QSMMatmul Theory.QSMTriInv.
+  Theory.MxRefine Theory.QSMDen Theory.QSMMatmul Theory.QSMTriInv Theory.QSMTriInvU.
 Set Implicit Arguments. Unset Strict Implicit. Unset Printing Implicit Defensive.
 Import GRing.Theory.
 Local Open Scope ring_scope.
@@ -27,3 +27,18 @@ Theorem C06_lower_inv_two_sided (F : fieldType) sq lt (d : vec F) (l : tri F) :
   den (tn l) (Lower d l) *m den (tn l) Li = 1%:M /\ den (tn l) Li *m den (tn l) (Lower d l) = 1%:M.
 Proof. exact: lower_inv_two_sided. Qed.
 Print Assumptions C06_lower_inv_two_sided.
+
+(* backward substitution: U @ solve(U, y) = y *)
+Theorem C06_upper_solve_sound (F : fieldType) sq lt c (d : vec F) (u : tri F) (y : mat F) :
+  (forall k, (k < tn u)%N -> nth 0 d k != 0) ->
+  den (tn u) (Upper d u) *m mx_of (tn u) c (upper_solve (fops sq lt) c d u y) = mx_of (tn u) c y.
+Proof. exact: upper_solve_den. Qed.
+Print Assumptions C06_upper_solve_sound.
+
+(* UpperTriQSM.inv returns a two-sided inverse of the same kind *)
+Theorem C06_upper_inv_two_sided (F : fieldType) sq lt (d : vec F) (u : tri F) :
+  (forall k, (k < tn u)%N -> nth 0 d k != 0) ->
+  let Ui := Upper (upper_inv (fops sq lt) d u).1 (upper_inv (fops sq lt) d u).2 in
+  den (tn u) (Upper d u) *m den (tn u) Ui = 1%:M /\ den (tn u) Ui *m den (tn u) (Upper d u) = 1%:M.
+Proof. exact: upper_inv_two_sided. Qed.
+Print Assumptions C06_upper_inv_two_sided.
